@@ -202,7 +202,7 @@ class Recorder(object):
         if b == 'dir-py':
             return A.dir_archive(name, serialized=False)
         if b == 'sql-mem':
-            return A.sqltable_archive(None, 'memo%d' % x)
+            return A.sqltable_archive(None, 'memo')      # every in-memory archive owns a private database: same name, distinct stores
         if b == 'sql-file':
             return A.sqltable_archive('sqlite:///' + os.path.join(self.w, 's.db'), 'memo%d' % x)
         raise ValueError(b)
